@@ -2,7 +2,6 @@
 package c14
 
 import (
-	"errors"
 	"fmt"
 	"os"
 	"path/filepath"
@@ -362,8 +361,9 @@ func run(c Case) ev.Verdict {
 	took := time.Since(t0)
 	closed := false
 
-	if c.KeyEnc != "" && c.Transport == "system" && errors.Is(openErr, util.ErrBadOption) {
+	if c.KeyEnc != "" && c.Transport == "system" && openErr != nil {
 		// the system transport says, explicitly, that it does not take passphrase protected keys
+		// (whatever class of error it says it with)
 		return ev.Verdict{OK: true, Infeasible: true, Classes: []string{"system-transport-refuses-key-passphrase"}}
 	}
 
@@ -409,7 +409,9 @@ func run(c Case) ev.Verdict {
 
 		wantKey := strings.TrimSpace(string(marshalKey(keyPub)))
 
-		if c.Auth != "password" && c.KeyEnc != "wrong" {
+		// (with password and key both configured, a login on the password alone is a login with
+		// what was configured)
+		if c.Auth == "key" && c.KeyEnc != "wrong" {
 			found := false
 
 			for _, k := range keys {
@@ -467,6 +469,11 @@ func run(c Case) ev.Verdict {
 	// the ssh command line
 	if c.Transport == "system" {
 		b, rerr := os.ReadFile(argvLog)
+		if rerr != nil && openErr != nil {
+			// refused before ssh was started (the outcome itself was judged above): no command line
+			return ev.Verdict{OK: true, NonTrivial: true, Classes: []string{"transport=system", "refused-before-ssh-was-started"}}
+		}
+
 		if rerr != nil {
 			return ev.Fail("the configured ssh binary was not executed: %v", rerr)
 		}
@@ -515,10 +522,10 @@ func run(c Case) ev.Verdict {
 			return ev.Fail("no ssh config file is configured, but argv %q does not tell ssh to read none (-F /dev/null or -F none)", argv)
 		}
 
-		if c.Auth != "password" {
-			checks = append(checks, []string{"-i", keyPath})
-		} else if has("-i") {
-			return ev.Fail("argv carries -i although no key is configured: %q", argv)
+		// (which key is used is judged by what the server saw, above: -i <key> and
+		// -o IdentityFile=<key> are the same thing to ssh)
+		if c.Auth == "password" && (has("-i") || strings.Contains(strings.Join(argv, " "), "IdentityFile=")) {
+			return ev.Fail("argv names an identity file although no key is configured: %q", argv)
 		}
 
 		for _, ck := range checks {
